@@ -39,6 +39,8 @@ def exec_inverse(case):
         grid, ds = model.make_grid(case["grid"])
         da = model.make_array(case["args"]["data"], nm, ds, name="v1")
         axis = [nm(a) for a in case["args"]["axis"]]
+        if case["args"].get("axis_as_tuple"):
+            axis = tuple(axis)
         cs = grid.cumsum(da, axis, to="outer", boundary="fill", fill_value=0)
         back = grid.diff(cs, axis, to="center")
         rec["out"] = model.encode_result(back, 1, nm)
@@ -123,6 +125,8 @@ def exec_cumint(case):
         grid, ds = model.make_grid(case["grid"], ds=ds, metrics={tuple(nm(a) for a in case["args"]["axis"]): ["m1"]})
         da = model.make_array(case["args"]["data"], nm, ds, name="v1")
         axis = [nm(a) for a in case["args"]["axis"]]
+        if case["args"].get("axis_as_tuple"):
+            axis = tuple(axis)
         kw = model.call_kwargs(case["args"], nm)
         rec["out"] = model.encode_result(grid.cumint(da, axis, **kw), 1, nm)
         rec["integ"] = model.encode_result(grid.integrate(da, axis), 1, nm)
